@@ -191,15 +191,3 @@ Qed.
 
 (* ------------------------------------------------------------------ well-formed states *)
 Definition keys_match {V} (f : V -> key) (m : smap V) : Prop := forall k v, In (k, v) m -> f v = k.
-
-Record wf_oracle (s : oracle_st) : Prop := {
-  wo_rates : sortedb (o_rates s) = true; wo_feeders : sortedb (o_feeders s) = true;
-  wo_miss : sortedb (o_miss s) = true; wo_prevotes : sortedb (o_prevotes s) = true;
-  wo_votes : sortedb (o_votes s) = true; wo_pairs : ksortedb (o_pairs s) = true;
-  wo_pv_keys : keys_match v_voter (o_prevotes s); wo_v_keys : keys_match v_voter (o_votes s);
-  wo_rw_keys : forall k r, In (k, r) (o_rewards s) -> rw_id r = k;
-  wo_rw_sorted : forall a b l1 l2, o_rewards s = l1 ++ a :: b :: l2 -> (fst a < fst b)%Z;
-  (* the KeySet is refreshed from Params.Whitelist at the end of every vote period; it can only be
-     empty while the whitelist is non-empty on a chain whose genesis had an empty whitelist *)
-  wo_pairs_nonempty : o_pairs s = [] -> o_whitelist s = []
-}.
